@@ -148,3 +148,6 @@ func (s *Service) VerifResetDMaps() {
 		_ = s.destroyLocalDMap(name)
 	}
 }
+
+// VerifJanitor runs one pass of the empty-fragment janitor.
+func (s *Service) VerifJanitor() { s.deleteEmptyFragments() }
